@@ -208,8 +208,18 @@ def walk (q : Q) (f : Item → Item) : Option Nat → Q
 def incPollCount (it : Item) : Item := { it with pollCount := (it.pollCount + 1) % W32 }
 def incPollIndex (it : Item) : Item := { it with pollIndex := (it.pollIndex + 1) % W32 }
 
+/-- where `AddPoll` starts walking: the cursor's item — unless that item has been recycled since the cursor was positioned
+(it is marked `0xffffffff` or carries another `seq`), then nowhere (the cursor's next `Pop` reports "out of buf") -/
+def addStart (q : Q) (c : Cursor) : Option Nat :=
+  match c.cur with
+  | none => none
+  | some sid =>
+    match locate q sid with
+    | some (it, _) => if it.pollCount = M32 ∨ it.seq ≠ c.seq then none else some sid
+    | none => some sid
+
 def addPoll (q : Q) (c : Cursor) : Q :=
-  walk { q with pollCount := (q.pollCount + 1) % W32 } incPollCount c.cur
+  walk { q with pollCount := (q.pollCount + 1) % W32 } incPollCount (addStart q c)
 
 def removePoll (q : Q) (c : Cursor) : Q :=
   walk { q with pollCount := (q.pollCount + W32 - 1) % W32 } incPollIndex c.cur
@@ -328,8 +338,8 @@ Events (each is one atomic step; a cut is an event at a message boundary):
   end; otherwise `ERR_NOT_FOUND` → the client clears its id and repeats the request with an empty id. The channel is now in
   `wait`: the leader waits for the client's "started" message (`waitStarted`) — pushes may happen in between.
 * `start f` — the "started" message arrived: `addServerChannel` (AddPoll on the cursor as positioned at `connect`); after a
-  transfer from scratch the client NOW stores `curId := H` (InitSync: `self.currentAofId = aofId` before `recvFiles`) and
-  the file phase begins; after a resume the stream begins.
+  transfer from scratch the file phase begins (the client's `curId` stays empty until the first record arrives — before the
+  repair `fix: … InitSync` it stored `curId := H` here), after a resume the stream begins.
 * `deliver f` — phase `files H pos`: the next persisted record with id < H is transferred and applied (`curId :=` its id),
   or the end marker switches to `stream`; phase `stream`: one iteration of `SendProcess`: the item in hand is written
   (applied by the follower, `curId :=` its id) and acknowledged, else `Pop` (error → the channel closes, RemovePoll).
@@ -432,7 +442,7 @@ def start (s : Sync) (n : Nat) : Sync × SObs :=
   let f := getF s.fols n
   match f.conn with
   | .wait none => ({ s with q := addPoll s.q f.cur, fols := setF s.fols n { f with conn := .stream } }, .ok)
-  | .wait (some h) => ({ s with q := addPoll s.q f.cur, fols := setF s.fols n { f with curId := h, conn := .files h 0 } }, .ok)
+  | .wait (some h) => ({ s with q := addPoll s.q f.cur, fols := setF s.fols n { f with conn := .files h 0 } }, .ok)
   | _ => (s, .noop)
 
 /-- one iteration of `SendProcess` for the channel serving follower `f` (phase `stream`) -/
